@@ -70,6 +70,37 @@ def late_data_doc(rng):
     return doc, evs[:k], evs[k:] + [rng.choice(["n", "c"]) for _ in range(rng.randint(1, 4))], other
 
 
+VALUES = [("''", "$ == ''"), ("0", "$ == 0"), ("false", "$ == false"), ("'x y'", "$ == 'x y'"), ("'0'", "type($) == 'string' and $ == '0'"),
+          ("'true'", "type($) == 'string' and $ == 'true'"), ("-1.5", "$ == -1.5"), ("12345678", "$ == 12345678"),
+          ("{1, 2, 3}", "type($) == 'table' and #$ == 3 and $[3] == 3"),
+          ("{a = '', b = 0}", "type($) == 'table' and $.a == '' and $.b == 0"), ("{k = {1, 'z'}}", "type($) == 'table' and type($.k) == 'table' and $.k[2] == 'z'"),
+          ("'a\\\\b'", "$ == 'a\\\\b'"), ("' '", "$ == ' '"), ("true", "$ == true")]
+EMPTY_TABLE = ("{}", "type($) == 'table' and next($) == nil")     # recorded finding `empty-table`: probed by one fixed document
+
+
+def typed_data_doc(rng, fixed=None):
+    """values of every kind the datamodel can hold (empty string, zero, false, strings that look like numbers or booleans,
+    empty and nested tables ...) assigned before the snapshot to variables the document initialises differently; the
+    continuation asks, variable by variable, whether the value is still the assigned one"""
+    k = rng.randint(2, 5) if fixed is None else len(fixed)
+    vals = [rng.choice(VALUES) for _ in range(k)] if fixed is None else list(fixed)
+    data = "".join('<data id="v%d" expr="%s"/>' % (i, rng.choice(["'init'", "7", "{9}"])) for i in range(k))
+    assign = "".join('<assign location="v%d" expr="%s"/>' % (i, v.replace("<", "&lt;").replace('"', "&quot;")) for i, (v, _) in enumerate(vals))
+    probes = ""
+    for i, (_, c) in enumerate(vals):
+        cond = c.replace("$", "v%d" % i)
+        probes += ('<state id="p%d"><transition event="c" cond="%s" target="p%d"/><transition event="c" target="bad%d"/></state><state id="bad%d"><transition event="c" target="p%d"/></state>'
+                   % (i, cond.replace("&", "&amp;").replace("<", "&lt;").replace('"', "&quot;"), i + 1, i, i, i + 1))
+    doc = ('<scxml xmlns="http://www.w3.org/2005/07/scxml" version="1.0" datamodel="lua" initial="s0"><datamodel>%s</datamodel>'
+           '<state id="s0"><transition event="n" target="s1"/></state><state id="s1"><onentry>%s</onentry><transition event="n" target="p0"/></state>'
+           '%s<state id="p%d"/></scxml>' % (data, assign, probes, k))
+    other = '<scxml xmlns="http://www.w3.org/2005/07/scxml" version="1.0" datamodel="lua"><state id="x"/><state id="y"/></scxml>'
+    pre = ["n"] + (["n"] if rng.random() < 0.7 else []) + (["c"] * rng.randint(0, k) if rng.random() < 0.3 else [])
+    if pre.count("n") < 2 and "c" in pre: pre = ["n"]
+    cont = (["n"] if pre.count("n") < 2 else []) + ["c"] * (2 * k + 1)
+    return doc, pre, cont, other
+
+
 def delayed_doc(rng):
     """pending delayed events at the snapshot: states of a ring send themselves delayed events (distinct delays, so that the
     order in which they become due is determined) which move the chart on when they arrive"""
@@ -147,6 +178,37 @@ def suite_late(ctx, n):
     ctx.add_suite("serialize-late-data", **st)
 
 
+def suite_typed(ctx, n):
+    rng = ctx.rng
+    lines, docs = [], []
+    for _ in range(n):
+        doc, pre, cont, other = typed_data_doc(rng)
+        for engine in ("large", "fast"):
+            lines.append("%s\t-\t%s\t%s\t%s\t%s" % (engine, ",".join(pre) or "-", ",".join(cont) or "-", hexs(doc), hexs(other))); docs.append(doc)
+    outs = run_serial(ctx, lines)
+    st = dict(inputs=len(lines), identical=0, skipped=0, violations=0, probes_failed_in_original=0)
+    for l, doc, o in zip(lines, docs, outs):
+        v, why = judge(o)
+        if v == "skip": st["skipped"] += 1; continue
+        if o.startswith("A=") and ",bad" in o.split(" || ")[0]: st["probes_failed_in_original"] += 1
+        if v == "ok": st["identical"] += 1; continue
+        st["violations"] += 1
+        if len(ctx.violations) < 4:
+            ctx.violation("typed-%d" % len(ctx.violations), "serialize-typed-data", [l],
+                          detail="engine %s, lua datamodel, values of different kinds: %s\nprefix/continuation: %s\ndocument: %s" % (l.split("\t")[0], why, l.split("\t")[2:4], doc))
+    # the recorded finding: a variable holding an empty table comes back undefined (Data cannot tell an empty table from nothing)
+    doc, pre, cont, other = typed_data_doc(rng, fixed=[EMPTY_TABLE, VALUES[0]])
+    o = run_serial(ctx, ["large\t-\tn\tn,c,c,c,c,c\t%s\t%s" % (hexs(doc), hexs(other))])[0]
+    v, why = judge(o)
+    st["empty_table_probe"] = v
+    if v == "bad":
+        if "empty-table" in ctx.findings and "cfg:root,bad0" in o and "cfg:root,bad1" not in o: ctx.known("empty-table", "")
+        else:
+            st["violations"] += 1
+            ctx.violation("typed-empty-table", "serialize-typed-data", ["large\t-\tn\tn,c,c,c,c,c\t%s\t%s" % (hexs(doc), hexs(other))], detail="empty table probe: %s\ndocument: %s" % (why, doc))
+    ctx.add_suite("serialize-typed-data", **st)
+
+
 def run(ctx):
     ctx.setup()
     ctx.audit(THEOREMS, LEAN_FILES)
@@ -178,6 +240,7 @@ def run(ctx):
                                   detail="engine %s, datamodel %s: %s\nchart: %s\nprefix/continuation: %s" % (engine, dm, why, charts.sexpr(d)[:500], l.split("\t")[2:4]))
     ctx.add_suite("serialize", **st)
     suite_late(ctx, 60 if quick else 2000)
+    suite_typed(ctx, 60 if quick else 2000)
     suite_delayed(ctx, 40 if quick else 600)
     # the hypothesis of restore_snapshot is what the engine model maintains: evaluated at every stable point
     sc = E.gen_cases(rng, 400 if quick else 10000, p_history=0.5, max_events=4)
